@@ -45,6 +45,7 @@ func c08Ops() []c08Op {
 		ops = append(ops, c08Op{kind: "resume", k: k, name: fmt.Sprintf("client resumes with the id of event #%d", k)})
 	}
 	ops = append(ops, c08Op{kind: "resume2", name: "a second, concurrent resume with the latest id"})
+	ops = append(ops, c08Op{kind: "fresh", name: "client opens the standalone stream anew, without Last-Event-ID"})
 	ops = append(ops, c08Op{kind: "purge", name: "memory pressure: the event store evicts what it can"})
 	ops = append(ops, c08Op{kind: "resume-broken", k: 0, name: "client resumes with the id of event #0 over a connection that breaks after the first replayed event"})
 	ops = append(ops, c08Op{kind: "resume-store-fault", k: 0, name: "client resumes with the id of event #0 while the event store fails that one read"})
@@ -62,6 +63,9 @@ type c08Opts struct {
 	// jsonResponse: the server answers POSTs with application/json (StreamableHTTPOptions.JSONResponse);
 	// its standalone stream is an SSE stream all the same and must be just as resumable
 	jsonResponse bool
+	// lateOpen: the standalone stream is not opened at the start: the first GET comes whenever the
+	// history says so, possibly after the server has written to the stream
+	lateOpen bool
 }
 
 func c08Run(t *testing.T, o c08Opts, ops []c08Op, hist []int) (out verifx.SearchResult) {
@@ -177,12 +181,14 @@ func c08InBubble(o c08Opts, ops []c08Op, hist []int) verifx.SearchResult {
 	for k := range store.appended {
 		before[k] = true
 	}
-	if o.standalone {
+	if o.standalone && o.lateOpen {
+		first = nil
+	} else if o.standalone {
 		first, err = open("GET", "", sid, "")
 	} else {
 		first, err = open("POST", `{"jsonrpc":"2.0","id":7,"method":"tools/call","params":{"name":"t","arguments":{},"_meta":{"progressToken":"tok"}}}`, sid, "")
 	}
-	if err != nil || (first.status != 200 && first.status != 0) {
+	if first != nil && (err != nil || (first.status != 200 && first.status != 0)) {
 		return bad("open-stream", "opening the stream failed: %v %+v", err, first)
 	}
 	var sess *ServerSession
@@ -333,6 +339,31 @@ func c08InBubble(o c08Opts, ops []c08Op, hist []int) verifx.SearchResult {
 			x.cancel()
 			attached = nil
 			obs = op.kind
+		case "fresh":
+			// a GET without Last-Event-ID: the whole logical stream from its beginning
+			if !o.standalone {
+				return verifx.SearchResult{Skip: true}
+			}
+			wasAttached := attached != nil && !attached.ended && !attached.cut
+			x, err := open("GET", "", sid, "")
+			if err != nil {
+				return bad("resume-failed", "%s: %v", where, err)
+			}
+			x.startIdx = -1
+			switch {
+			case wasAttached:
+				if x.status != http.StatusConflict {
+					return bad("concurrent-resume-not-refused", "%s: the stream is attached to exchange %d, a second GET got status %d", where, attached.n, x.status)
+				}
+				obs = "fresh-409"
+			case x.status != 200 && x.status != 0:
+				return bad(fmt.Sprintf("fresh-get-status-%d", x.status), "%s: a GET for the standalone stream answered %d", where, x.status)
+			default:
+				if !x.ended {
+					attached = x
+				}
+				obs = "fresh-200"
+			}
 		case "resume", "resume2":
 			if streamKey == "" {
 				streamKey = findKey()
@@ -424,6 +455,9 @@ func TestVerifC08(t *testing.T) {
 		{"standalone-stream/2025-06-18", c08Opts{version: "2025-06-18", standalone: true}},
 		{"standalone-stream/2025-06-18/json-response-mode", c08Opts{version: "2025-06-18", standalone: true, jsonResponse: true}},
 		{"request-stream/2025-06-18+memory-pressure", c08Opts{version: "2025-06-18", purge: true}},
+		{"standalone-stream/2025-11-25", c08Opts{version: "2025-11-25", standalone: true}},
+		{"standalone-stream/2025-11-25/opened-late", c08Opts{version: "2025-11-25", standalone: true, lateOpen: true}},
+		{"standalone-stream/2025-06-18/opened-late", c08Opts{version: "2025-06-18", standalone: true, lateOpen: true}},
 	} {
 		env.RunSearch(res, &verifx.Search{
 			Name: o.name, NumOps: len(ops), OpName: func(i int) string { return ops[i].name },
